@@ -241,7 +241,7 @@ struct Run<'a> {
     m: Model,
     t0: Instant,
     seq: u32,
-    /// payloads handed to clients: bytes -> (identity, address the packet is sent from)
+    /// payloads handed to clients: bytes -> (identity, home address of the client)
     in_payloads: HashMap<Vec<u8>, (usize, usize)>,
     /// payloads handed to the server: bytes -> (target address, accepted by the server)
     out_payloads: HashMap<Vec<u8>, (usize, bool)>,
@@ -357,7 +357,7 @@ impl<'a> Run<'a> {
     }
 
     fn on_forwarded(&mut self, a: usize, bytes: &[u8], tag: &SessTag) -> CheckResult {
-        let Some(&(id, from)) = self.in_payloads.get(bytes) else {
+        let Some(&(id, owner)) = self.in_payloads.get(bytes) else {
             return Err(Fail::new(
                 "forwarded-bytes-not-encrypted-by-any-client",
                 format!("server forwarded {} bytes from address {a} that no client encrypted", bytes.len()),
@@ -366,10 +366,9 @@ impl<'a> Run<'a> {
         self.flow_allowed("forwarded", id)?;
         self.tag_ok("forwarded", tag, id)?;
         ensure!(
-            from == a && self.completed[id][a],
+            self.completed[id][a],
             "forwarded-without-handshake-on-address",
-            "payload of client ({id},{from}) forwarded on address {a}; handshake completed there: {}",
-            self.completed[id][a]
+            "payload of client ({id},{owner}) forwarded on address {a} where identity {id} never completed a handshake"
         );
         self.fwd_count[id] += 1;
         self.obs.label("forwarded");
@@ -524,8 +523,15 @@ impl<'a> Run<'a> {
                     r?;
                     let done = self.completed[id][a];
                     self.completed[id][a] |= before;
+                    let foreign = (0..NI).any(|j| j != id && self.attempted[j][a]);
+                    if foreign {
+                        self.obs.label("handshake-second-identity-same-address");
+                    }
                     match (done, self.m.auth(id)) {
                         (true, _) => self.obs.label("handshake-completed"),
+                        // availability only (TODO in server.rs): the address is held by the tunnel of
+                        // another identity until that tunnel expires
+                        (false, Tri::Yes) if foreign => self.obs.label("handshake-refused-address-held-by-other-identity"),
                         (false, Tri::Yes) => self.obs.label("handshake-refused-though-authorised"),
                         (false, _) => self.obs.label("handshake-refused-unauthorised"),
                     }
@@ -535,7 +541,7 @@ impl<'a> Run<'a> {
                 let (id, a) = (id as usize % NI, a as usize % NA);
                 let from = if via_other { (a + 1) % NA } else { a };
                 let payload = self.payload(b'i', id as u8, a as u8, len);
-                self.in_payloads.insert(payload.clone(), (id, from));
+                self.in_payloads.insert(payload.clone(), (id, a));
                 let lost = if via_other { None } else { self.lost[id][a] };
                 if let Some(kind) = lost {
                     self.nontrivial = true;
@@ -669,6 +675,11 @@ impl<'a> Run<'a> {
     /// registry answers for all identities vs. the model (both directions), and the derived
     /// invariant "at most one identity per key".
     fn probe_registry(&mut self) -> CheckResult {
+        // sensitivity experiments only: judge registry defects by the traffic oracle alone
+        static NO_PROBE: LazyLock<bool> = LazyLock::new(|| std::env::var_os("VERIF_C09_NO_REGISTRY_PROBE").is_some());
+        if *NO_PROBE {
+            return Ok(());
+        }
         let now = Instant::now() + self.authz.offset();
         let mut n_auth = 0;
         for id in 0..NI {
@@ -963,8 +974,8 @@ fn run_len5_slice(ctx: &Ctx) {
     }
 }
 
-const QUICK_SLICE_LEN4: u64 = 40_000;
-const QUICK_SLICE_LEN5: u64 = 40_000;
+const QUICK_SLICE_LEN4: u64 = 60_000;
+const QUICK_SLICE_LEN5: u64 = 60_000;
 
 // ---------------------------------------------------------------------------------------------
 // random histories
@@ -1052,9 +1063,9 @@ fn hist_strategy() -> impl Strategy<Value = Hist> {
 }
 
 fn run_random(ctx: &Ctx) {
-    ctx.run_prop("hist-random", ctx.tier.pick(QUICK_RANDOM, 100_000), hist_strategy, check_hist);
+    ctx.run_prop("hist-random", ctx.tier.pick(QUICK_RANDOM, 400_000), hist_strategy, check_hist);
 }
-const QUICK_RANDOM: u32 = 1_500;
+const QUICK_RANDOM: u32 = 20_000;
 
 fn run_registry_exh(ctx: &Ctx, name: &str, unit_ns: u64) {
     let alpha = ralphabet();
